@@ -5,6 +5,7 @@ CONSTANTS
   MaxSizes = {1, 2, 3}
   MaxSponsors = {1, 2, 3}
   Attrs <- MCAttrs
+  MaxVisits = 2
 INVARIANTS TypeOK UniqueIDs WithinLimits SizeIsSum OwnedIsCount StreamedNotReaddable PreparedAreStreamed NotStreamingClean
 PROPERTIES ExpiryProp HandOutProp
 CHECK_DEADLOCK FALSE
